@@ -22,7 +22,10 @@
 (*                             "scalar" (float v) | "intscalar" (int v) | "undef"      *)
 (*           vals = the supplied values (may be longer than, or shorter than, the      *)
 (*           horizon needs)                                                            *)
-(*   ics     sequence of [name, val]: stated initial conditions; icform = "float" |    *)
+(*   ics     sequence of [name, val]: stated initial conditions (targets: any          *)
+(*           non-exogenous variable, the time axis t - automatic or user-defined -,    *)
+(*           t_minus_1 - defined or not; a name without variable is ignored);          *)
+(*           icform = "float" |                                                        *)
 (*           "int" | "undef" (a name that cannot be evaluated)                         *)
 (*   horizon, where = "block" (MaxTime line) | "solver" (EquationSolver.MaxTime set    *)
 (*           before ParseString) | "default" (neither: horizon 0) |                    *)
@@ -76,10 +79,15 @@ Referenced(vs, n) ==
         \/ vs[i].cls = "sim" /\ \E j \in 1..Len(vs[i].refs) : vs[i].refs[j] = n
         \/ vs[i].cls = "lag" /\ vs[i].src = n
 
-HasUserT(vs) == "t" \in Names(vs)
+(* The time axis.  The parser supplies t = k unless the block holds an EQUATION named t or      *)
+(* t_minus_1 (FoundT).  An initial condition "t(0) = .." or "t_minus_1(0) = .." is not an        *)
+(* equation: it states a k = 0 value (of the automatic axis, or of nothing when no variable of   *)
+(* that name exists) and must not stop the parser from supplying the axis.                        *)
+FoundT(vs)   == "t" \in Names(vs) \/ "t_minus_1" \in Names(vs)
+HasUserT(vs) == "t" \in Names(vs)              \* the user defines the axis itself
 DefaultT == [name |-> "t", cls |-> "sim", refs |-> << "k" >>, add |-> 0, src |-> ""]
 (* the parser supplies t = k when the user gives no t; it depends on k only, so it goes first *)
-AllVars(c) == IF HasUserT(c.vars) THEN c.vars ELSE << DefaultT >> \o c.vars
+AllVars(c) == IF FoundT(c.vars) THEN c.vars ELSE << DefaultT >> \o c.vars
 
 DecoSet(vs, reduce) ==
     IF reduce THEN { n \in SimNames(vs) : ~Referenced(vs, n) } ELSE {}
@@ -301,8 +309,13 @@ C10_LagShift ==
     Done => \A i \in LagIdx(vlist) : \A k \in 1..horizon :
                 series[vlist[i].name][k + 1] = series[vlist[i].src][k]
 
+(* a stated initial condition on the automatic axis is its k = 0 value (C10_ICVerbatim); from *)
+(* k = 1 on, and at k = 0 when nothing is stated, the axis equals k                            *)
 C10_TimeAxis ==
-    (Done /\ ~HasUserT(cfg.vars)) => \A k \in 0..horizon : series["t"][k + 1] = k
+    (Done /\ ~HasUserT(cfg.vars)) =>
+        /\ "t" \in DOMAIN series
+        /\ \A k \in 1..horizon : series["t"][k + 1] = k
+        /\ "t" \notin ICNames(cfg) => series["t"][1] = 0
 
 C10_Rejects ==
     /\ RejectedInput(cfg) => phase \in {"setup", "parsed", "assigned", "ic1", "reject"}
